@@ -148,13 +148,6 @@ def run_check(prop, tier):
             print('HARNESS-ERROR: job %s %s: %s\n%s' % (j['fn'], j.get('args'), r.get('error'),
                                                        r.get('trace', '')))
         return 2
-    # vacuity guards
-    guards = total.get('guards', {})
-    missing = [g for g in getattr(mod, 'required_guards', lambda tier: [])(tier)
-               if not guards.get(g)]
-    if missing:
-        print('HARNESS-ERROR: vacuity guard(s) never triggered: %s' % ', '.join(missing))
-        return 2
     # triage
     known = collections.OrderedDict()
     fresh = []
@@ -164,6 +157,13 @@ def run_check(prop, tier):
             known.setdefault(f['id'], [f, 0])[1] += 1
         else:
             fresh.append(v)
+    # vacuity guards (only meaningful when nothing failed: a failing job stops early)
+    guards = total.get('guards', {})
+    missing = [g for g in getattr(mod, 'required_guards', lambda tier: [])(tier)
+               if not guards.get(g)]
+    if missing and not fresh:
+        print('HARNESS-ERROR: vacuity guard(s) never triggered: %s' % ', '.join(missing))
+        return 2
     for fid, (f, n) in known.items():
         print('KNOWN-FINDING: property=%s %s [%s] (%d cases)' % (prop, f['what'], fid, n))
     # replays: one per distinct signature, at most 25
